@@ -168,6 +168,8 @@ class Evaluator:
         self.dir = direction
         self.mutated_params: list = []
         self.depth = 0
+        self.choices: list = []     # outcomes imposed on the branchable tests, in evaluation order (run_paths)
+        self.path: list = []        # [(test text, outcome)] actually taken
 
     # ---------------------------------------------------------------- functions
     def call_helper(self, fi: FuncInfo, args: dict) -> object:
@@ -215,24 +217,9 @@ class Evaluator:
                 self.effect_call(fi, st.value, env)
                 continue
             if isinstance(st, ast.If):
-                try:
-                    t = self.test(fi, st.test, env)
-                except OrdUnknown:
-                    if not self._size_test_vs_parameter(st.test, env):
-                        raise
-                    # a comparison of the list's length with a caller-chosen number: both outcomes occur for lists of any
-                    # size, so both continuations are results of the function
-                    rest = stmts[stmts.index(st) + 1:]
-                    ra = self.block(fi, list(st.body) + rest, dict(env))
-                    rb = self.block(fi, list(st.orelse) + rest, dict(env))
-                    if ra == rb:
-                        return ra
-                    oa, ob = getattr(ra, "order", None), getattr(rb, "order", None)
-                    if isinstance(ra, L) and isinstance(rb, L) and {oa, ob} & {"ORIG"} and oa != ob:
-                        raise OrdDeviation(f"{fi.name}: when `{norm(st.test)}` {'holds' if oa == 'ORIG' else 'does not hold'} the list "
-                                           f"is returned in its original order, not ranked by cost (the other path returns "
-                                           f"{(rb if oa == 'ORIG' else ra).show()})")
-                    raise OrdUnknown(f"{fi.name}: the result depends on `{norm(st.test)}`")
+                # a comparison between the list's length and caller-chosen counts has both outcomes for suitable inputs:
+                # the driver (run_paths) explores each of them as a separate path
+                t = self._test_or_choose(fi, st.test, env)
                 r = self.block(fi, st.body if t else st.orelse, env)
                 if r is not None:
                     return r
@@ -242,19 +229,54 @@ class Evaluator:
             raise OrdUnknown(f"{fi.name}: statement `{norm(st, 60)}` not understood")
         return None
 
-    def _size_test_vs_parameter(self, t, env) -> bool:
-        """`len(<list>) <op> <scalar parameter>` (either side)"""
-        if not (isinstance(t, ast.Compare) and len(t.ops) == 1 and isinstance(t.ops[0], (ast.Lt, ast.LtE, ast.Gt, ast.GtE, ast.Eq, ast.NotEq))):
+    def _branchable(self, t, env) -> bool:
+        """a test built only from comparisons over scalar parameters, constants and len(<abstract list>)"""
+        def operand(e) -> bool:
+            if isinstance(e, ast.Constant) and isinstance(e.value, (int, float)) and not isinstance(e.value, bool):
+                return True
+            if isinstance(e, ast.Name):
+                v = env.get(e.id)
+                return isinstance(v, Scalar) and v.text not in ("None", "True", "False")
+            if isinstance(e, ast.Call) and isinstance(e.func, ast.Name) and e.func.id == "len" and len(e.args) == 1 \
+                    and isinstance(e.args[0], ast.Name) and isinstance(env.get(e.args[0].id), L):
+                return True
+            if isinstance(e, ast.BinOp) and isinstance(e.op, (ast.Add, ast.Sub, ast.Mult, ast.FloorDiv)):
+                return operand(e.left) and operand(e.right)
             return False
-        sides = [t.left, t.comparators[0]]
+        if isinstance(t, ast.Compare):
+            return all(isinstance(o, (ast.Lt, ast.LtE, ast.Gt, ast.GtE, ast.Eq, ast.NotEq)) for o in t.ops) \
+                and all(operand(x) for x in [t.left] + list(t.comparators))
+        if isinstance(t, ast.BoolOp):
+            return all(self._branchable(v, env) for v in t.values)
+        if isinstance(t, ast.UnaryOp) and isinstance(t.op, ast.Not):
+            return self._branchable(t.operand, env) or operand(t.operand)
+        return operand(t) and isinstance(t, ast.Name)        # `if n_best:` on a count
 
-        def is_len(e):
-            return isinstance(e, ast.Call) and isinstance(e.func, ast.Name) and e.func.id == "len" and len(e.args) == 1 \
-                and isinstance(e.args[0], ast.Name) and isinstance(env.get(e.args[0].id), L)
+    def _test_or_choose(self, fi, t, env) -> bool:
+        try:
+            return self.test(fi, t, env)
+        except OrdUnknown:
+            if isinstance(t, ast.BoolOp):
+                if isinstance(t.op, ast.And):
+                    for v in t.values:
+                        if not self._test_or_choose(fi, v, env):
+                            return False
+                    return True
+                for v in t.values:
+                    if self._test_or_choose(fi, v, env):
+                        return True
+                return False
+            if isinstance(t, ast.UnaryOp) and isinstance(t.op, ast.Not) and not self._branchable(t, env):
+                return not self._test_or_choose(fi, t.operand, env)
+            if not self._branchable(t, env):
+                raise
+            return self._choose(norm(t))
 
-        def is_param_scalar(e):
-            return isinstance(e, ast.Name) and isinstance(env.get(e.id), Scalar) and env[e.id].text == e.id
-        return (is_len(sides[0]) and is_param_scalar(sides[1])) or (is_len(sides[1]) and is_param_scalar(sides[0]))
+    def _choose(self, text: str) -> bool:
+        i = len(self.path)
+        b = self.choices[i] if i < len(self.choices) else True
+        self.path.append((text, b))
+        return b
 
     def assign(self, t, v, env):
         if isinstance(t, ast.Name):
@@ -347,6 +369,8 @@ class Evaluator:
             return L("<empty>", fresh=True)
         if dotted(e) in ("TaskType.MIN", "TaskType.MAX"):
             return self.const(e)
+        if dotted(e) in ("heapq.nsmallest", "heapq.nlargest"):
+            return ("FUNC", dotted(e))
         if isinstance(e, ast.IfExp):
             return self.expr(fi, e.body if self.test(fi, e.test, env) else e.orelse, env)
         cs = costs_source(fi, e)
@@ -433,6 +457,16 @@ class Evaluator:
             return E(base.src, base.kind, base.order, "first" if base.window[0] == "FIRST" else "last")
         raise OrdUnknown(f"element {at} of {base.show()}")
 
+    def _heapq(self, fi, d: str, c: ast.Call, env):
+        """heapq.nsmallest(n, X, key=cost): the n smallest in ascending order; nlargest: the n largest in descending order"""
+        v = self.expr(fi, c.args[1], env)
+        if isinstance(v, L) and v.window == ("ALL",):
+            order = self.sort_order(fi, ast.Call(func=c.func, args=[], keywords=[k for k in c.keywords if k.arg == "key"]), env)
+            if order != "ASC":
+                raise OrdUnknown(f"{fi.name}: heapq with a reversed key")
+            return L(v.src, v.kind, "ASC" if d.endswith("nsmallest") else "DESC", ("FIRST", self.scalar_text(fi, c.args[0], env)), True)
+        raise OrdUnknown(f"{fi.name}: heapq over {v}")
+
     def call(self, fi, c: ast.Call, env):
         f = c.func
         # methods on abstract lists
@@ -460,6 +494,18 @@ class Evaluator:
                 v = self.expr(fi, c.args[0], env)
                 if isinstance(v, L):
                     return replace(v, order={"ASC": "DESC", "DESC": "ASC", "ORIG": "ORIG"}[v.order], fresh=True)
+            if d in ("heapq.nsmallest", "heapq.nlargest") and len(c.args) == 2:
+                return self._heapq(fi, d, c, env)
+            if False:
+                # the n smallest in ascending order / the n largest in descending order, as a new list
+                v = self.expr(fi, c.args[1], env)
+                if isinstance(v, L) and v.window == ("ALL",):
+                    order = self.sort_order(fi, ast.Call(func=c.func, args=[], keywords=[k for k in c.keywords if k.arg == "key"]), env)
+                    if order != "ASC":
+                        raise OrdUnknown(f"{fi.name}: heapq with a reversed key")
+                    return L(v.src, v.kind, "ASC" if d.endswith("nsmallest") else "DESC", ("FIRST", self.scalar_text(fi, c.args[0], env)), True)
+        if isinstance(f, ast.Name) and isinstance(env.get(f.id), tuple) and env[f.id] and env[f.id][0] == "FUNC" and len(c.args) == 2:
+            return self._heapq(fi, env[f.id][1], c, env)
         if isinstance(f, ast.Name):
             if f.id in ("list", "tuple") and len(c.args) == 1:
                 v = self.expr(fi, c.args[0], env)
@@ -497,10 +543,62 @@ class Evaluator:
         raise OrdUnknown(f"{fi.name}: call `{norm(c, 60)}` not understood")
 
 
-def evaluate(prog: Program, name: str, direction: str, n_params: Optional[dict] = None):
-    """Abstract result of helpers.<name>(population, <counts>, task_type=direction)."""
+def run_paths(make_run, limit: int = 32) -> list:
+    """Explore every combination of outcomes of the branchable tests.  make_run(choices) -> (evaluator, result); the
+    evaluator records the path it took.  -> [(path, result, evaluator)]"""
+    out = []
+    work = [[]]
+    seen = set()
+    while work:
+        ch = work.pop()
+        ev, got = make_run(list(ch))
+        path = tuple(ev.path)
+        if path in seen:
+            continue
+        seen.add(path)
+        out.append((list(ev.path), got, ev))
+        if len(out) > limit:
+            raise OrdUnknown("too many paths")
+        # every prefix of the path taken, with the last outcome flipped, is another path
+        for i in range(len(ch), len(ev.path)):
+            alt = [b for (_t, b) in ev.path[:i]] + [not ev.path[i][1]]
+            work.append(alt)
+    return out
+
+
+def pinned_empty(path: list, got) -> bool:
+    """the path is taken only for a zero count and returns an empty list for it: consistent with FIRST(0) / LAST(0)"""
+    import re as _re
+    zero = any((b and _re.fullmatch(r"(\w+) (==|<=) 0|(\w+) < 1|not \w+", t)) or ((not b) and _re.fullmatch(r"\w+|(\w+) (>|!=) 0|(\w+) >= 1|0 < \w+", t))
+               for (t, b) in path)
+    return zero and isinstance(got, L) and got.src == "<empty>"
+
+
+def evaluate(prog: Program, name: str, direction: str, n_params: Optional[dict] = None, ok=None):
+    """Abstract result of helpers.<name>(population, <counts>, task_type=direction).  When the helper branches on its counts
+    / the population size every path is evaluated; with an acceptance predicate `ok` the first path whose result is not
+    accepted is returned (its conditions are in ev.path), otherwise the results must agree."""
+    def one(choices):
+        return _evaluate_once(prog, name, direction, n_params, choices)
+    paths = run_paths(lambda ch: tuple(reversed(one(ch))))
+    if len(paths) == 1:
+        return paths[0][1], paths[0][2]
+    results = [(p_, g_, e_) for (p_, g_, e_) in paths if not pinned_empty(p_, g_)]
+    if ok is not None:
+        for (p_, g_, e_) in results:
+            if not ok(g_):
+                return g_, e_
+        return results[0][1], results[0][2]
+    first = results[0]
+    if all(g_ == first[1] for (_p, g_, _e) in results):
+        return first[1], first[2]
+    raise OrdUnknown(f"{name}: the result depends on " + " / ".join(sorted({t for (p_, _g, _e) in results for (t, _b) in p_})))
+
+
+def _evaluate_once(prog: Program, name: str, direction: str, n_params: Optional[dict], choices: list):
     fi = prog.func(f"{HELPERS}.{name}")
     ev = Evaluator(prog, direction)
+    ev.choices = list(choices)
     args = {}
     for p in fi.params:
         if p == "population":
